@@ -1,5 +1,6 @@
 import PvlModel.Props.C03
 import PvlModel.Props.C01
+import PvlModel.Props.C14
 /-!
 # C02 — the default loader reads back everything any bundled encoder writes
 
@@ -50,5 +51,60 @@ theorem C02_bare_string (c : EncCfg) (s : Str) (h : encodeValue c (.str s) = .ok
     decodeSimple omniDec s = .ok (.str s) := by
   have := C17_unquoted_roundtrip_default c s (by simpa [encodeValue, encodeSimple] using h)
   simpa [omniDec, permissiveDec] using this
+
+
+theorem omni_tables : TimeTablesOK omniDec.g = true ∧ TimeTablesOK6 omniDec.g = true ∧ DtTablesOK omniDec.g = true ∧
+    omniDec.g.dateFormats.head? = some fmtYmd ∧ defaultTz omniDec.g = some 0 := by
+  refine ⟨?_, ?_, ?_, ?_, ?_⟩ <;> decide
+
+/-- **C02, dates**: whatever encoder wrote the date, the default decoder reads it back -/
+theorem C02_date (c : EncCfg) (y m d : Nat) (hd : ValidDate y m d) :
+    ∃ text, encodeValue c (.date y m d) = .ok text ∧ decodeDatetime omniDec text = .ok (.date y m d) := by
+  refine ⟨encodeDate y m d, by simp [encodeValue, encodeSimple], ?_⟩
+  exact C14_date_decodes omniDec omni_tables.2.2.2.1 y m d hd
+
+/-- **C02, times and date-times without a zone offset**: the text any of the four encoders writes for a naive
+    or UTC value — `HH:MM[:SS[.ffffff]]` (PVL, ISIS), with `Z` (ODL), with milliseconds and an optional `Z`
+    (PDS3) — is read by the default decoder as that clock time in UTC -/
+theorem C02_time (c : EncCfg) (h mi s us : Nat) (hv : ValidTime h mi s us) (tz : Option Int)
+    (htz : tz = none ∨ tz = some 0) (text : Str) (he : encodeValue c (.time h mi s us tz) = .ok text) :
+    decodeDatetime omniDec text = .ok (.time h mi s us (some 0)) := by
+  obtain ⟨t3, t6, _, _, hdef⟩ := omni_tables
+  have hnp : omniDec.kind = .pds → us % 1000 = 0 := by intro h; cases h
+  cases hk : c.kind
+  · -- pvl
+    have : text = encodeTimeBase h mi s us := by
+      rcases htz with rfl | rfl <;> simp [encodeValue, encodeSimple, encodeTime, hk] at he <;> exact he.symm
+    rw [this, C14_time_decodes omniDec t3 h mi s us hv hnp, hdef]
+  · -- odl
+    rcases htz with rfl | rfl
+    · simp [encodeValue, encodeSimple, encodeTime, hk] at he
+    · have : text = encodeTimeBase h mi s us ++ [90] := by
+        simp [encodeValue, encodeSimple, encodeTime, hk] at he; exact he.symm
+      rw [this]
+      exact C14_timeZ_decodes omniDec t6 h mi s us hv hnp
+  · -- pds
+    by_cases hp : us % 1000 = 0
+    · have e := encodeTime_pds c hk h mi s us hp tz htz
+      simp only [encodeValue, encodeSimple] at he
+      rw [e] at he
+      obtain ⟨b1, b2⟩ := decodeDatetimeBase_time_pds omniDec.g t6 h mi s us hv hp
+      rw [hdef] at b1
+      by_cases hz : c.timeTrailingZ = true
+      · simp only [hz, if_true, Except.ok.injEq] at he
+        subst he
+        simp [decodeDatetime, omniDec, decodeDatetimeOdl] at b2 ⊢
+        simp [b2]
+      · simp only [hz, Bool.false_eq_true, if_false, Except.ok.injEq] at he
+        subst he
+        simp [decodeDatetime, omniDec, decodeDatetimeOdl] at b1 ⊢
+        simp [b1]
+    · have : (us % 1000 != 0) = true := by simp [hp]
+      simp [encodeValue, encodeSimple, encodeTime, hk, this] at he
+  · -- isis
+    have : text = encodeTimeBase h mi s us := by
+      rcases htz with rfl | rfl <;> simp [encodeValue, encodeSimple, encodeTime, hk] at he <;> exact he.symm
+    rw [this, C14_time_decodes omniDec t3 h mi s us hv hnp, hdef]
+
 
 end Pvl
